@@ -317,6 +317,7 @@ impl THistory {
                 };
                 let renet_was_disconnected = c.renet.is_disconnected();
                 let netcode_was_disconnected = c.transport.verif_netcode_client().is_disconnected();
+                let reason_before = c.transport.disconnect_reason();
                 let r = if code == 203 { c.transport.update(Duration::from_nanos(dt), &mut c.renet) } else { c.transport.send_packets(&mut c.renet) };
                 let err = r.err();
                 // C20: a disconnect decided by the message layer is pushed down by the next update, whatever the handshake state
@@ -324,6 +325,8 @@ impl THistory {
                 // and the other way round: a netcode session that has ended (refused, timed out, expired, closed by the server)
                 // is pushed up by the next update, whether or not the message layer had ever been connected
                 let not_pushed_up = code == 203 && netcode_was_disconnected && !c.renet.is_disconnected();
+                let reason_after = c.transport.disconnect_reason();
+                let both_gone_before = renet_was_disconnected && netcode_was_disconnected;
                 if let Some(NetcodeTransportError::IO(e)) = &err {
                     // an OS level failure is outside the model: report it as a harness problem, not as a violation
                     self.comment(&format!("io error {}", e));
@@ -337,6 +340,17 @@ impl THistory {
                 let sent = self.pump_clients().remove(&k).unwrap_or_default();
                 if sent.iter().any(|(bb, _)| bb.len() > 1400) {
                     self.violate("C13", format!("client {} sent a datagram above 1400 bytes", k));
+                }
+                // C12/C20: once both layers of a client are disconnected it stays silent and keeps its reason
+                if both_gone_before {
+                    if !sent.is_empty() {
+                        self.violate("C12", format!("client {}: both layers were disconnected and the transport still sent {} datagram(s)", k, sent.len()));
+                        self.violate("C20", format!("client {}: both layers were disconnected and the transport still sent {} datagram(s)", k, sent.len()));
+                    }
+                    if reason_before.is_some() && reason_before.map(crate::nexec::creason_tree) != reason_after.map(crate::nexec::creason_tree) {
+                        self.violate("C12", format!("client {}: the reported disconnect reason changed from {:?} to {:?} after both layers were disconnected", k, reason_before, reason_after));
+                        self.violate("C20", format!("client {}: the reported disconnect reason changed from {:?} to {:?} after both layers were disconnected", k, reason_before, reason_after));
+                    }
                 }
                 let obs = l(vec![topt(err.as_ref().map(terr_tree)), l(sent.iter().map(|(bb, d)| l(vec![addr_tree(d), b(bb)])).collect())]);
                 self.record(Tree::L(v.to_vec()), obs);
